@@ -238,7 +238,7 @@ func init() {
 		Rule: "complete enumeration of: all point triples over an 11-value coordinate alphabet (0,+-1,+-2,3,+-(2^26+1),+-2^29,2^29-1) through isCollinear and through TrimCollinear64 on the closed 3-point path; all quadruples of a 15-value difference alphabet through productsAreEqual; " +
 			"Area64/AreaPaths64/IsPositive64 on P(3,3..6) under unit and 2^28 embeddings and on all 3-point paths over the alphabet; PointInPolygon for every lattice point (-1..k)^2 against every polygon of P(4,3..5) and P(3,6) under unit/stride-10/2^28 embeddings; GetBounds64 on P(3,1..5). Oracle: math/big shoelace, exact cross products, exact on-segment + crossing parity. " +
 			"non-trivial = triple base with a proper collinear triple / non-zero-area path / polygon with a lattice point strictly inside",
-		Assumptions: []string{"operand alphabet is finite; values between the listed magnitudes are not enumerated", "reference predicates use math/big or int64 products that provably fit"},
+		Assumptions:      []string{"operand alphabet is finite; values between the listed magnitudes are not enumerated", "reference predicates use math/big or int64 products that provably fit"},
 		RequiredCounters: []string{"collinear_distinct_triples_seen", "nonzero_area_paths", "polygons_with_lattice_point_inside", "polygons_with_lattice_point_on_boundary"},
 		Scopes:           c14Scopes,
 	})
